@@ -4,7 +4,7 @@ use crate::gen;
 use crate::runner::{CheckSpec, Family, Judge};
 
 pub fn all_props() -> Vec<&'static str> {
-    vec!["C11"]
+    vec!["C02", "C03", "C10", "C11"]
 }
 
 const REAL_RUST: &[&str] = &["/repo/src (blake3 crate, built from the working tree with --cfg blake3_team_blake3_verif)", "rayon-core", "memmap2", "digest", "zeroize", "arrayvec", "kernel VFS (scratch files)"];
@@ -22,6 +22,33 @@ pub fn spec(prop: &str) -> Option<CheckSpec> {
             real: REAL_RUST.to_vec(),
             stubs: vec!["the reader behind update_reader is the simulator's SimReader (the seam under test)"],
             assumptions: vec!["oracle = the crate's own one-shot functions on the yielded bytes (as the property is worded)", "std::io::copy and std::fs behave as documented"],
+        }),
+        "C02" => Some(CheckSpec {
+            prop: "C02",
+            level: "exploration",
+            rule: "Each run is one plan: 1-3 hashers (all modes) in a world of 1-4 caller tasks; each message is cut by a delivery script into fragments (boundary-biased sizes, zero-length included), each fragment delivered through an adapter (update, Write::write, write_all, io::copy, update_reader, update_rayon on a real pool, scripted-Join update, update_mmap*), interleaved with count / finalize / finalize_xof / clone (clone diverges, possibly after moving to another task) / concurrent finalize of one &Hasher from three tasks / moving the hasher between tasks. After every call count() must equal the bytes absorbed by that instance; every finalize must equal the crate's one-shot function on exactly those bytes and every extended output a single-update twin. distinct_nontrivial = distinct hasher state shapes (partial-chunk class x stack popcount x alignment x mode x adapter) + distinct schedule signatures of multi-task runs.",
+            families: vec![Family { name: "c02", gen: gen::c02, quick: 150_000, thorough: 4_000_000, judge: Judge::Exec }],
+            real: REAL_RUST.to_vec(),
+            stubs: vec!["caller threads are simulated tasks under the baton scheduler (real OS threads, one runs at a time)"],
+            assumptions: vec!["oracle = the crate's own one-shot functions (as the property is worded); for output beyond 32 bytes a fresh hasher fed by a single update"],
+        }),
+        "C03" => Some(CheckSpec {
+            prop: "C03",
+            level: "exploration",
+            rule: "Each run: 1-2 OutputReaders from roots of all kinds, driven by histories of fill / Read::read / read_exact / take().read_to_end / io::copy / set_position / seek(Start|Current|End) / position / clone (clone or reader may move to another task). Positions are log-uniform over [0, 2^64-1) with spikes around block counter 2^32, 2^38, 2^63 and the end of the stream; seeks that must fail (negative targets, every End) are injected anywhere and must leave the position unchanged. Oracle: SpecModel root node, block k computed on demand; every read must fill the whole buffer and advance the position by n. Forward seeks past 2^64-1 are not generated (the property is silent on them). distinct_nontrivial = distinct (adapter x position-in-block x length class x counter side of 2^32) read shapes + hasher shapes + schedule signatures.",
+            families: vec![Family { name: "c03", gen: gen::c03, quick: 200_000, thorough: 6_000_000, judge: Judge::Exec }],
+            real: REAL_RUST.to_vec(),
+            stubs: vec![],
+            assumptions: vec!["SpecModel (independent implementation of the paper, pinned by the frozen official vectors and hash(\"\"), hash(\"abc\"))"],
+        }),
+        "C10" => Some(CheckSpec {
+            prop: "C10",
+            level: "exploration",
+            rule: "Each run: a pool of 1-2 long-lived hashers serving 3-5 simulated clients each; a client runs a random prefix (set_input_offset at a valid offset, updates through any adapter, finalize / finalize_xof / finalize_non_root, clone) and is cancelled at an arbitrary operation; the pool calls reset() and hands the hasher (possibly on another task) to the next client. Oracle: a freshly constructed twin of the same mode executes the next client's operations in lockstep (count, finalize, finalize_non_root must agree) and the crate's one-shot function on the bytes absorbed since the reset; no in-domain operation may panic. Clones and originals are checked against their own byte strings. distinct_nontrivial = distinct state shapes at reset/absorb/finalize + schedule signatures.",
+            families: vec![Family { name: "c10", gen: gen::c10, quick: 150_000, thorough: 4_000_000, judge: Judge::Exec }],
+            real: REAL_RUST.to_vec(),
+            stubs: vec![],
+            assumptions: vec!["oracle = freshly constructed twin + crate one-shot functions; SpecModel for non-root chaining values"],
         }),
         _ => None,
     }
